@@ -7,7 +7,8 @@ stream's decision table (fits -> pass the same chunk and subtract exactly its
 length; too long / too short -> error, never data or a clean end), and the
 layers above it (`Body::poll_frame`, the stream enum) poll the wrapped stream
 once per poll and hand its answer on unchanged; (R4-R6) the
-multipart length is the checked sum of exactly the pieces the multipart stream
+multipart length (R7: and the body's exact size hint is that same owed-bytes
+field / the pending one-shot payload's length) is the checked sum of exactly the pieces the multipart stream
 later emits, each subtracted once.  Does not decide: that a foreign entity's
 chunks have the length Buf::remaining reports; hyper's framing."""
 from . import serve_model as SM
@@ -25,6 +26,7 @@ def run(ctx):
     BR.exactlen_table(ctx, "C01.R3")
     BR.exactlen_ctor_passthrough(ctx, "C01.R3.ctor")
     BR.layers_transparent(ctx, "C01.R3.layers")
+    BR.body_hint_tables(ctx, "C01.R7.hint", "C01.R7.eos")
     MP.length_sum(ctx, "C01.R4")
     MP.stream_accounting(ctx, "C01.R5")
     MP.correspondence(ctx, "C01.R6")
